@@ -24,3 +24,16 @@ func VerifRestartIDs() {
 		}
 	}()
 }
+
+// VerifRestartIDsInBubble is VerifRestartIDs for callers running inside a testing/synctest bubble,
+// where no goroutine may be left behind: the next 10000 IDs come from a pre-filled channel. The
+// returned function puts the previous counter back; call it before the bubble ends.
+func VerifRestartIDsInBubble() (restore func()) {
+	prev := countChannel
+	c := make(chan int, 10000)
+	for i := 0; i < 10000; i++ {
+		c <- i
+	}
+	countChannel = c
+	return func() { countChannel = prev }
+}
